@@ -66,6 +66,10 @@ def loop_song(rng, kind):
         insert(tk, S, mk(b"loopStart"), ("loopstart",)); insert(tk, S + div, mk(b"loopStart"), ("loopstart",)); insert(tk, E, mk(b"loopEnd"), ("loopend",)); valid = False
     elif kind == "dup-end":
         insert(tk, S, mk(b"loopStart"), ("loopstart",)); insert(tk, E - div, mk(b"loopEnd"), ("loopend",)); insert(tk, E, mk(b"loopEnd"), ("loopend",)); valid = False
+    elif kind == "start-at-end":
+        insert(tk, length, mk(b"loopStart"), ("loopstart",)); valid = False          # end (= song end) not after start
+    elif kind == "same-tick-tracks":
+        insert(0, S, mk(b"loopStart"), ("loopstart",)); insert(ntr - 1, S, mk(b"loopEnd"), ("loopend",)); valid = False
     s.kind = kind
     return s, start, end, valid
 
@@ -98,7 +102,7 @@ def histories(ctx):
     rng = ctx.rng
     quick = ctx.tier == "quick"
     hs = []
-    kinds = ["both", "start0", "cc111", "start-only", "end-only", "none", "reversed", "dup-start", "dup-end"]
+    kinds = ["both", "start0", "cc111", "start-only", "end-only", "none", "reversed", "dup-start", "dup-end", "start-at-end", "same-tick-tracks"]
     for i in range(18 if quick else 150):
         kind = kinds[i % len(kinds)]
         song, start, end, valid = loop_song(rng, kind)
@@ -114,6 +118,12 @@ def histories(ctx):
             # hooks registered before a reset and a (re)load stay registered
             h3 = sq.PREFIX + hooks + ["loop 1", "loopcount 2", "reset", "opendata " + img.hex(), "opendata " + img.hex(), "loopstart", "loopend", "tickall 400000 " + GRAN, "atend"]
             hs.append((h3, {"song": song, "start": start, "end": end, "valid": valid, "enabled": True, "n": 2, "obs": len(h3) - 2, "kind": kind + "/reset"}))
+        if i % 4 == 1:
+            # a seek into the one-second tail behind the last event runs into the end and rewinds: looping stays in force
+            latest = max(t[0] for t in gen_smf.reference_timeline(song) if t[4][0] != "eot")
+            tgt = sq.dystr(Fraction(float(latest + Fraction(1, 2))))
+            h5 = sq.PREFIX + hooks + ["loop 1", "loopcount %d" % n, "opendata " + img.hex(), "seek " + tgt, "loopend", "tickall 400000 " + GRAN, "atend"]
+            hs.append((h5, {"song": song, "start": start, "end": end, "valid": valid, "enabled": True, "n": n, "obs": len(h5) - 2, "kind": kind + "/seek-tail"}))
         if i % 3 == 2:
             # endless repetition: still not at the end after many passes
             h4 = sq.PREFIX + hooks + ["loop 1", "loopcount -1", "opendata " + img.hex(), "loopstart", "loopend", "tickall 3000 " + GRAN, "atend"]
@@ -181,8 +191,9 @@ def run(tier, replay=None):
                     fails.append("loop-end hook fired %d times, expected %d (count %d, %s)" % (LE, want_le, n, meta["kind"]))
                 explicit_start = meta["enabled"] and meta["valid"] and meta["start"] is not None
                 want_ls = n if (meta["enabled"]) else 0
+                rewound = meta["kind"].endswith("/seek-tail")
                 if LS != want_ls:
-                    if meta["enabled"] and not explicit_start and LS == 0:
+                    if meta["enabled"] and ((not explicit_start and LS == (1 if rewound else 0)) or (explicit_start and rewound and LS == want_ls + 1)):
                         known_hits.append("%s: loop-start hook fired %d times in %d passes" % (meta["kind"], LS, n))
                     else:
                         fails.append("loop-start hook fired %d times, expected %d (count %d, %s)" % (LS, want_ls, n, meta["kind"]))
